@@ -128,13 +128,25 @@ def run(tier, seed):
             except Exception as e:  # noqa
                 bad("pointer-to-scalar:xobject-array", context=cn, dtype=nm, problem=f"{type(e).__name__}: {e}")
             # wrong element type is refused
-            other = np.arange(4).astype("float32" if nm != "Float32" else "int16")
-            try:
-                getattr(K, f"first_{nm}")(p=other)
-                bad("refusal:wrong-element-type", context=cn, dtype=nm, passed=str(other.dtype))
-            except Exception:  # noqa
-                pass
-            evals += 1
+            # (every other element type: other widths, other kinds, complex numbers whose halves have the declared type, as numpy
+            # arrays and as xobject arrays)
+            wrong = [d for d in ("int8", "int16", "int32", "int64", "uint8", "uint16", "uint32", "uint64", "float32", "float64", "complex64", "complex128")
+                     if np.dtype(d) != dt]
+            for d in wrong:
+                cands = [("numpy", np.arange(4).astype(d))]
+                xt = getattr(X, d.capitalize().replace("Uint", "UInt"), None)
+                if xt is not None:
+                    try:
+                        cands.append(("xobject", xt[:]([1, 2, 3, 4], _buffer=ctx.new_buffer(128))))
+                    except Exception:  # noqa  (this element type has no array form here)
+                        pass
+                for how, other in cands:
+                    try:
+                        getattr(K, f"first_{nm}")(p=other)
+                        bad("refusal:wrong-element-type", context=cn, dtype=nm, passed=d, array=how)
+                    except Exception:  # noqa
+                        pass
+                    evals += 1
         # ---- compound xobjects: address at call time, several per buffer, after growth
         buf = ctx.new_buffer(96)
         objs = []
